@@ -117,6 +117,17 @@ def check(case):
                 res.v("C08.c", "C08.c:lenient-walk", "%s: %s" % (label, common.show_diff(t.items, exp)))
             res.count("value-only-compared")
     # probe (not verdict): did the message after the faulty one decode as in the fault-free run?
+    orig = case["input"].get("orig")
+    if s["type"] == model.STREAM and orig and case["faults"] and all("off" in r for r in case["faults"]):
+        o0 = model.decode(model.STREAM, bytes.fromhex(orig))
+        if o0.ok and len(o0.msgs) >= 2:
+            hit = max((k for k, m in enumerate(o0.msgs) if m["start"] <= max(r["off"] for r in case["faults"])), default=0)
+            pos = "first" if hit == 0 else "last" if hit == len(o0.msgs) - 1 else "middle"
+            res.count("stream-fault-in:%s-message" % pos)
+            if hit < len(o0.msgs) - 1 and len(bytes.fromhex(orig)) == len(data):
+                tail = [real.model_item(x) for x in o0.items[o0.msgs[hit + 1]["item_lo"]:]]
+                got = [it for it in t.items if it[0] != "W"]
+                res.count("resynchronised-after-fault" if (tail and got[-len(tail):] == tail) else "not-resynchronised-after-fault")
     if nwarn or escaped or case["faults"]:
         res.nontrivial(s["type"], s.get("cc"), s.get("enc"), s["data"])
     return res
